@@ -68,7 +68,7 @@ theorem step_stuck {cfg : Cfg} (nr : NoRelease cfg) {s : RSys} (h : Stuck cfg s)
         exact ⟨h, fun j q hq hp => ⟨q, hq, hp⟩⟩
       | running =>
         have hfree : todoFree (stepRunning cfg r).1 := by
-          rcases r with ⟨peer, script, phase, out, cls, delivered, lock⟩
+          rcases r with ⟨peer, script, phase, out, cls, delivered, lock, released⟩
           simp only at hph; subst hph
           cases script with
           | nil => simp [stepRunning, failWith, todoFree, nr .none]
